@@ -38,6 +38,12 @@ def programs(ctx, want_cancel):
     out = []
     for i, p in enumerate(core.sample(ctx.rng, bidi, 360 if quick else 6000)):
         out.append(dict(p, kind="bidi", http=2, proto=["connect", "grpc", "grpcweb"][i % 3]))
+    floods = [p for p in kinds if p["h"].get("hflood")]
+    kinds = [p for p in kinds if not p["h"].get("hflood")]
+    # handlers that send until the client goes away: a seeded handful, over both HTTP versions
+    for i, p in enumerate(core.sample(ctx.rng, floods, 18 if quick else len(floods))):
+        proto = ["connect", "grpc", "grpcweb"][i % 3]
+        out.append(dict(p, http=2 if proto == "grpc" else [1, 2][(i // 3) % 2], proto=proto))
     for i, p in enumerate(core.sample(ctx.rng, kinds, 240 if quick else len(kinds))):
         # server and client streaming also run over HTTP/1.1 (plain gRPC needs HTTP/2 trailers end to end)
         proto = ["connect", "grpc", "grpcweb"][i % 3]
